@@ -50,6 +50,18 @@ def rules_select_event(run, P='C05', rid='.3'):
             names = [dotted(strip_cast(e)) for e in it.elts]
             if all(nm and nm.startswith('self.') for nm in names):
                 qloop = (lp, names)
+    if qloop is None:
+        # one queue picked up front by emptiness (`internal or external`, `internal if internal else external`): the external queue is then
+        # examined only when the internal one is empty, not whenever it has nothing due
+        for n in q.walk(F, False):
+            picks = None
+            if isinstance(n, ast.BoolOp) and isinstance(n.op, ast.Or):
+                picks = [dotted(strip_cast(v)) for v in n.values]
+            elif isinstance(n, ast.IfExp):
+                picks = [dotted(strip_cast(n.body)), dotted(strip_cast(n.orelse))]
+            if picks and set(picks) == {'self._internal_queue', 'self._external_queue'}:
+                run.fail(r, fi.short, 'both queues are examined for a due head', 'the queue to examine is chosen by emptiness (%s): a pending internal event that is not '
+                         'due yet hides every due external event' % q.unparse(n)[:70], n)
     run.anchor(qloop, r, 'loop over the (internal, external) queues in _select_event')
     lp, names = qloop
     run.check(names == ['self._internal_queue', 'self._external_queue'], r, fi.short,
@@ -384,6 +396,18 @@ def rules_insertion(run, P='C05'):
             lead = body.elts[0] if isinstance(body, ast.Tuple) and body.elts else body
             run.check(q.unparse(lead) == p + '[0]', r, fi.short, 'stored entries keyed by due time first',
                       'the key must read the stored due time (component 0) first', b)
+            if isinstance(body, ast.Tuple):
+                # FIFO among equal due times: bisect_right appends behind equal keys only if nothing but the due time tells entries of one queue
+                # apart, so every further component must be the same for all events of a queue (a test of the event class, or a constant)
+                for extra in body.elts[1:]:
+                    e_ = strip_cast(extra)
+                    while isinstance(e_, ast.UnaryOp) and isinstance(e_.op, ast.Not):
+                        e_ = strip_cast(e_.operand)
+                    const_in_queue = isinstance(e_, ast.Constant) or (
+                        isinstance(e_, ast.Call) and isinstance(e_.func, ast.Name) and e_.func.id == 'isinstance' and len(e_.args) == 2
+                        and q.unparse(e_.args[0]) == p + '[1]' and q.unparse(e_.args[1]) in ('InternalEvent', 'MetaEvent', 'Event'))
+                    run.check(const_in_queue, r, fi.short, 'no tie-break among the events of one queue beyond the due time (%s)' % q.unparse(extra)[:50],
+                              'entries with equal due times are ordered by %s: a later-queued event can overtake an earlier one (FIFO broken)' % q.unparse(extra)[:50], b)
             if isinstance(body, ast.Tuple) and isinstance(needle, ast.Tuple):
                 run.check(len(body.elts) == len(needle.elts), r, fi.short, 'key and needle have the same arity',
                           'key/needle arity mismatch', b)
